@@ -43,3 +43,38 @@ Qed.
 (* non-vacuity: the factory does create classes, and their readers do seek *)
 Example term_nonvacuous : (100 <? Z.of_nat (length (filter (fun p => negb (snd p =? 0)) factory_table))) = true.
 Proof. vm_compute. reflexivity. Qed.
+
+(* ---------- the inflating stage and the whole read session ---------- *)
+Lemma ohb_prefix_ohb : ohb_prefix cs (prog_of cs C_ohb M_read) = true.
+Proof. vm_compute. reflexivity. Qed.
+Lemma ohb_prefix_lc : ohb_prefix cs (prog_of cs C_lc M_read) = true.
+Proof. vm_compute. reflexivity. Qed.
+Lemma stats_seeks_ok : seeks_ok cs (prog_of cs C_stats M_read) = true.
+Proof. vm_compute. reflexivity. Qed.
+
+(* for EVERY file content, every allocation cap and whatever zlib answers: neither stage of the read session runs out of
+   fuel — the sequential model of File::open(in) ... read() until nullptr always ends *)
+Theorem read_session_terminates : forall (inflate : list Z -> Z -> option (list Z)) cap (bytes : list Z),
+  r_cend (f_read_session inflate cap bytes) <> EndFuel /\ r_oend (f_read_session inflate cap bytes) <> EndFuel.
+Proof.
+  intros inflate cap bytes. unfold f_read_session, read_session.
+  destruct (dec cs scan_p cap C_stats (fresh cs C_stats) (mk_fstream bytes)) as [[st i1]|e] eqn:E0; [|cbn; split; discriminate].
+  unfold dec in E0.
+  destruct (st_run_mono cs (callf cs C_stats) scan_p cap scan_rules_back_at_most_3 _ _ _ _ _ _ stats_seeks_ok (eq_refl : s_sticky (mk_fstream bytes) = true) E0) as (T1 & Z1 & G1).
+  match goal with |- context [cont_loop ?a ?b ?c ?d ?e ?f ?g ?h ?k ?infl ?fuel ?i ?acc ?u] =>
+    pose proof (fun H => cont_loop_never_out_of_fuel a b c d e f g h k infl scan_rules_back_at_most_3 ohb_prefix_ohb ohb_prefix_lc fuel i acc u T1 H) as HC;
+    pose proof (cont_loop_failed_start a b c d e f g h k infl scan_rules_back_at_most_3 ohb_prefix_ohb (S (length bytes / 16)) i acc u T1) as HB;
+    destruct (cont_loop a b c d e f g h k infl fuel i acc u) as [[conts usize] cend] eqn:EC
+  end.
+  pose proof (parser_terminates cap (concat conts)) as HP.
+  destruct (obj_loop cs scan_p cap factory_table C_ohb fid_objectSize fid_objectType (2 * length (concat conts) + 16) (mk_ustream (concat conts)) [] 0) as [[objs count] oend] eqn:EO.
+  cbn [r_cend r_oend snd] in *. split; [|exact HP].
+  destruct (s_good i1) eqn:Gi.
+  - apply HC. destruct (G1 eq_refl) as [_ Hpos]. cbn [s_pos mk_fstream] in Hpos. cbn [s_size mk_fstream] in Z1. rewrite Z1.
+    pose proof (zlen_nonneg bytes) as Hzb.
+    assert (Z.max 0 (zlen bytes - s_pos i1) / 16 <= zlen bytes / 16) by (apply Z.div_le_mono; lia).
+    assert (0 <= Z.max 0 (zlen bytes - s_pos i1) / 16) by (apply Z.div_pos; lia).
+    assert (zlen bytes / 16 = Z.of_nat (length bytes / 16)) by (unfold zlen; rewrite Nat2Z.inj_div; reflexivity).
+    lia.
+  - apply HB. reflexivity.
+Qed.
